@@ -655,8 +655,10 @@ func (s Emitter) WriteExpression(output io.Writer, expression cypher.Expression)
 		}
 
 	case *cypher.FunctionInvocation:
-		if _, err := io.WriteString(output, strings.Join(typedExpression.Namespace, ".")); err != nil {
-			return err
+		for _, namespacePart := range typedExpression.Namespace {
+			if _, err := io.WriteString(output, namespacePart+"."); err != nil {
+				return err
+			}
 		}
 
 		if _, err := io.WriteString(output, typedExpression.Name); err != nil {
